@@ -26,10 +26,11 @@ type replica struct {
 	raw     dbApi.NodeDB
 	db      *spyDB
 	off     bool // accepted an operation the other replica rejected: its state no longer follows the model
+	noWL    bool // opened with DiscardWriteLogs (as the consensus state storage is)
 }
 
 func (r *replica) open() error {
-	raw, err := kv.OpenDB(r.backend, r.dir, r.dir == "")
+	raw, err := kv.OpenDBOpts(r.backend, r.dir, r.dir == "", r.noWL)
 	if err != nil {
 		return err
 	}
@@ -1203,8 +1204,12 @@ func runMachine(t *rapid.T, rec *ev.Recorder, backends []string, cur **machine) 
 	m := &machine{t: t, rec: rec, graveyard: map[string][]byte{}}
 	*cur = m
 	disk := rapid.IntRange(0, 2).Draw(t, "disk") == 0
+	noWL := rapid.IntRange(0, 2).Draw(t, "discardWriteLogs") == 0
+	if noWL {
+		rec.Label("config:discard-write-logs")
+	}
 	for _, b := range backends {
-		r := &replica{backend: b}
+		r := &replica{backend: b, noWL: noWL}
 		if disk {
 			r.dir = kv.TempDir("c06-" + b + "-")
 		}
